@@ -65,6 +65,8 @@ def run_binarize(gram, cfg):
         args['markov_opts'] = mo
     else:
         args['markov_opts'] = None
+    if cfg.get('verb'):
+        args['verb'] = True             # the statistics printed in verbose mode must not change the result
     return grammar.binarize(gram, **args)
 
 
